@@ -11,6 +11,18 @@ CLAIMED = {
    text="For each seeded program the interrupt instant is enumerated over EVERY VM instruction of the run, every INPUT wait and every after-reply instant (interrupt + optional inspection line + CONT), STOP and END are inserted at every top-level statement boundary, and seven quantum schedules are compared event-for-event; oracle is the uninterrupted run of the same program. Complete over crash points per sampled program, sampled over programs.",
    note="Trusted: the normaliser that removes the ?BREAK report, the line break it forces and the prompts (terminal model + probe hook H4 to tell forced from printed line breaks). TRON, interrupts landing in the direct RUN line, and column-sensitive items after a mid-line break are not judged.",
    tech="deterministic simulation: exhaustive interrupt-point / STOP-END-placement enumeration per seeded program, self-differential against the uninterrupted run, seeded quantum schedules"),
+ "C04": dict(cat="exploration", ref="DESIGN.md section 5 C04",
+   text="Seeded search over edit histories (insert/replace/delete/absent-delete, DELETE ranges, RENUM, NEW, SimDisk load, harmless direct statements) around runs stopped by an injected interrupt, STOP, END or an error inside loops and subroutines, ending in RUN / RUN n / CONT / RETURN / NEXT; the oracle is a fresh twin Runtime fed get_listing() text with entropy aligned. Needs no semantic model, so it cannot raise model-induced alarms; a clean batch is evidence over the sampled histories.",
+   note="Trusted: token-stream normaliser (prompt and forced line breaks removed). CONT/RETURN/NEXT without an edit since the last stop are legitimate and not judged; cases whose listing is not a fixed point (C05) are discarded.",
+   tech="deterministic simulation: seeded edit histories with interrupt-stopped runs, fresh-twin differential oracle"),
+ "C12": dict(cat="exploration", ref="DESIGN.md section 5 C12",
+   text="Seeded search over session prefixes (programs run to completion / planted error / STOP / Ctrl-C at a seeded instruction, direct statements leaving variables, arrays, DEFtype, DATA position, FOR/GOSUB frames, pending INPUT, RND draws) followed by RUN of another program, RUN again, CLEAR + probe lines, or NEW + probe lines + LIST; every line is compared with a fresh twin Runtime, entropy aligned.",
+   note="Trusted: token-stream normaliser; TRON is switched off at the end of the prefix because the manual lets tracing persist across RUN.",
+   tech="deterministic simulation: seeded session prefixes with injected interrupts and failing statements, fresh-twin differential oracle"),
+ "C15": dict(cat="exploration", ref="DESIGN.md section 5 C15",
+   text="Seeded edit / LIST / DELETE / TAB-lookup histories over a small universe of line numbers, with Ctrl-C after the j-th listed line and get_listing() snapshots held across edits; an ordered-map model is compared with the real listing after every operation and with every LIST transcript; held snapshots must keep rendering what they rendered when taken.",
+   note="Trusted: the 40-line map model. Whole-program ranges written explicitly for DELETE (0-65529 and equivalents) are not judged.",
+   tech="deterministic simulation: seeded histories against an ordered-map reference model, LIST interrupted mid-way, live-snapshot fault"),
 }
 
 NOT_APPLICABLE = {
